@@ -413,8 +413,46 @@ func runC20(c *fw.Ctx) {
 			pos := r.Intn(len(bb) + 1)
 			bb = append(bb[:pos], append([]byte([]string{"\n", "\r\n", "\n\n", " \n"}[r.Intn(4)]), bb[pos:]...)...)
 		}
+		// text that means something to a shell or a template engine (variable references, command substitutions), whole or
+		// broken up by the line breaks above: to the parser these are characters like any other, in memory and from a file
+		if r.Chance(1, 4) {
+			for k := r.Range(1, 3); k > 0; k-- {
+				pos := r.Intn(len(bb) + 1)
+				snip := []string{"${", "}", "${HOME}", "$HOME", "$PATH", "${\n}", "$(", ")", "`", "%TEMP%", "~", "{{", "}}", "<%", "%>", "$$", "${A\nB}"}[r.Intn(17)]
+				bb = append(bb[:pos], append([]byte(snip), bb[pos:]...)...)
+			}
+		}
 		text = string(bb)
 		c.MarkInput(text)
+		if r.Chance(1, 5) {
+			// the same bytes through ParseFile: the same verdict, the same line
+			os.MkdirAll(dir, 0o755)
+			path := filepath.Join(dir, "any.json")
+			if os.WriteFile(path, []byte(text), 0o644) == nil {
+				var ferr, merr error
+				pan, msg := drive.Protect(func() {
+					_, ferr = at.ParseFile(path)
+					_, merr = at.ParseObject(text)
+				})
+				c.Count("via_parsefile")
+				inF := func() string { return fmt.Sprintf("a file holding %q given to ParseFile", text) }
+				switch {
+				case pan:
+					c.Violate("parse-panics", inF(), "error or container", "panic: "+msg)
+					return
+				case (ferr == nil) != (merr == nil):
+					c.Violate("parsefile-differs-from-parseobject", inF(), fmt.Sprintf("the verdict of ParseObject on the same bytes: %v", merr), fmt.Sprintf("%v", ferr))
+					return
+				case ferr != nil:
+					fl, ml := lineRe.FindStringSubmatch(ferr.Error()), lineRe.FindStringSubmatch(merr.Error())
+					if (fl == nil) != (ml == nil) || (fl != nil && fl[1] != ml[1]) {
+						c.Violate("wrong-line-of-detection-character", inF(), "the line ParseObject cites for the same bytes: "+merr.Error(), ferr.Error())
+						return
+					}
+					c.Count("parsefile_lines_compared")
+				}
+			}
+		}
 		for _, root := range []spec.Kind{spec.List, spec.Obj} {
 			var err error
 			pan, msg := drive.Protect(func() {
